@@ -12,6 +12,7 @@ mod o_listops;
 mod o_globals;
 mod o_rename;
 mod o_reader;
+mod o_parsers;
 
 use std::panic;
 
@@ -33,6 +34,7 @@ fn oracles() -> Vec<(&'static str, Enumerate, Check)> {
         ("c10_counter", o_globals::enum_counter, o_globals::check_counter),
         ("c10_rename", o_rename::enum_rename, o_rename::check_rename),
         ("c21_load", o_reader::enum_load, o_reader::check_load),
+        ("c18_parsers", o_parsers::enum_strings, o_parsers::check_string),
         ("c06_keeps", o_unify::enum_keeps, o_unify::check_keeps),
     ]
 }
